@@ -45,7 +45,9 @@ fn c07_compactsize_boundary_fanouts() {
     let mut cases = 0;
     for n in [252usize, 253, 254, 300] {
         cases += 1;
-        let fan = TxSpec::new(vec![TxIn::new([0x33; 32], 5, vec![0x51])], (0..n).map(|i| TxOut::new(10 + i as u64, p2pkh_script(&[(i % 251) as u8; 20]))).collect());
+        // (every 7th output pays a witness program of a future version: program lengths 2..=40, addresses up to 74 characters)
+        let fan = TxSpec::new(vec![TxIn::new([0x33; 32], 5, vec![0x51])], (0..n).map(|i| TxOut::new(10 + i as u64,
+            if i % 7 == 3 { let l = 2 + (i / 7) % 39; let mut sc = vec![0x51 + ((i / 7) % 16) as u8, l as u8]; sc.extend(vec![(i % 256) as u8; l]); sc } else { p2pkh_script(&[(i % 251) as u8; 20]) })).collect());
         let fid = fan.txid();
         // a second block spends the first and the last output of the fan-out (by its real txid) and pays through a long script
         let mut long = vec![0x6a, 0x4c, 0xfa]; long.extend(vec![0x41u8; 250]);            // 253-byte script (no address)
